@@ -130,8 +130,9 @@ def setValue (s : S) (h : Nat) (q : Query) (kind : Kind) (spec : Spec) (ri : Rep
 
 /-- `HandleBridgeDepositDirectReveal` -/
 def depositReveal (s : S) (h : Nat) (q : Query) (kind : Kind) (spec : Spec) (ri : RepIn) (power : Nat) : Option S :=
-  let (q1, s1) := if q.amount = 0 ∧ q.exp ≤ h then ({ q with id := s.nextId, exp := h + q.window }, { s with nextId := s.nextId + 1 })
-                  else (q, s)
+  let fresh : Bool := decide (q.amount = 0 ∧ q.exp ≤ h)
+  let q1 := if fresh then { q with id := s.nextId, exp := h + q.window } else q
+  let s1 := if fresh then { s with nextId := s.nextId + 1 } else s
   let q2 := if q1.amount > 0 ∧ q1.exp ≤ h then { q1 with exp := h + q1.window } else q1
   if q2.exp < h then none else setValue s1 h q2 kind spec ri power true
 
@@ -164,11 +165,13 @@ def nonceOf (ns : List (String × Nat)) (qid : String) : Nat := ((ns.find? (·.1
 def setNonce (ns : List (String × Nat)) (qid : String) (n : Nat) : List (String × Nat) :=
   (ns.filter (fun x => !(x.1 == qid))) ++ [(qid, n)]
 
-def aggLe (a b : Agg) : Bool := a.qid < b.qid || (a.qid == b.qid && a.ts ≤ b.ts)
-
-/-- `Aggregates.Set` keyed by (qid, ts): an entry with the same key is replaced -/
+/-- `Aggregates.Set` keyed by (qid, ts): an entry with the same key is replaced in place, a new key is appended.
+The list is kept in creation order; per query that is timestamp order as long as block times increase
+(`Props/C08`), which is the store's key order. -/
 def setAgg (as : List Agg) (a : Agg) : List Agg :=
-  ((as.filter (fun x => !(x.qid == a.qid && x.ts == a.ts))) ++ [a]).mergeSort aggLe
+  if as.any (fun x => x.qid == a.qid && x.ts == a.ts)
+  then as.map (fun x => if x.qid == a.qid && x.ts == a.ts then a else x)
+  else as ++ [a]
 
 /-- one expired query with reports: aggregate, store, remove the query. `none` = the end blocker fails. -/
 def aggregateOne (s : S) (h : Nat) (ts : Nat) (q : Query) : Option S :=
